@@ -143,6 +143,11 @@ func canon(s []span) ([]span, error) {
 						// There is a gap; cannot merge.
 						break
 					}
+					if this.max.lessThan(next.min) && (this.maxOpen || next.minOpen) {
+						// The spans only adjoin, and an open end
+						// leaves a hole between them; cannot merge.
+						break
+					}
 				} else {
 					continue // Too difficult for now, but may be covered by another span. TODO?
 				}
